@@ -154,6 +154,15 @@ pub enum Op {
         slot: usize,
     },
     OpenGate(usize),
+    /// create the call's future now, poll it only later (after a yield / a timer) or never: an operation must take
+    /// effect when it is awaited, not when its future is created
+    SendDeferred {
+        slot: usize,
+        kind: SendKind,
+        body: Body,
+        /// 0 = drop the future without ever polling it; 1 = yield once, then await; n>=2 = sleep n ms, then await
+        defer: u64,
+    },
 }
 
 #[derive(Clone, Debug)]
